@@ -25,9 +25,15 @@ CLAIMS = {
     "C03": dict(engine="mirsym", technique="symbolic execution of rustc MIR into SMT (z3) of create_in_reply, whose async body is lifted verbatim into a synchronous fn on every run", design="3/C03",
                 text="Solver-decided for upstream replies of bounded section shape (<= 3 records per section) with every record field, rcode and header bit symbolic and client queries with symbolic id/question: the reply assembled by create_in_reply carries the client's id and question, is marked as a response, and its rcode, answer, authority and additional sections are the upstream's record by record and in order.",
                 note="Assumes the syntactic lifting (strip .await, add_edns -> no-op: it only fills the reply's own OPT options) preserves the body; derived Clone = structural copy. NOT decided: the upstream query (create_outquery), id matching and retry in outquery.rs (async sockets), the wire codec (C14, not claimed), TTL ageing in the cache (C06)."),
-    "C05": dict(technique=KB + " on parser skeletons (length/type fields enumerated over boundary values, contents symbolic)", design="3/C05",
-                text="Solver-decided panic-freedom (Kani's overflow, bounds, unwrap, assert checks + unwinding assertions) of: the pktparser cursor (any 3 operations, buffers <= 8 octets), dhcppkt::parse at every field-boundary truncation and on fully symbolic 241-octet headers, EDNS COOKIE/EDE accessors for option lengths 0..40, LLDP TLV / management-address / packet decoders and (where present) ICMPv6 option decoders on skeleton families.",
-                note="NOT decided: arbitrary byte strings beyond the skeleton families and sizes stated per obligation; DHCP option decoding through parse_options and the DNS message parser on symbolic input (HashMap inserts / symbolic-length copies are out of CBMC's reach); stack depth of recursive name compression; 'the service still answers the next request' (process liveness; socket loops such as lldp/mod.rs:24 buffer[14..]). Kani models the dev profile (overflow checks on)."),
+    "C04": dict(engine="mirsym", technique="symbolic execution of rustc MIR into SMT (z3) of the size-limited DNS serialiser with a symbolic size limit, checked against an independent structural oracle", design="3/C04",
+                text="Solver-decided for messages of bounded concrete shape (<= 5 records with rdata of 0..600 octets across the three sections, with and without OPT) with symbolic ids, flags, types, TTLs, rcode and a symbolic size limit over the whole range 512..65535: DNSPkt::serialise_with_size never exceeds the limit, drops whole records from the end only, rewrites the three section counts to the records actually present, sets TC exactly when a record was dropped, and the output length is header + question + kept records (so the header is neither shifted nor grown).",
+                note="NOT decided: which limit each transport passes (run_udp / run_tcp / prepare_to_send are tokio socket tasks) and the bufsize floor applied by the parser beyond what C14's round trip shows; owner names other than the root in the size obligations (compression is covered by C14's obligations); messages with > 5 records. Summaries for byte vectors / iterators listed in the evidence."),
+    "C14": dict(engine="mirsym", technique="symbolic execution of rustc MIR into SMT (z3) of DNSPkt::serialise followed by PktParser::get_dns, checked field by field and against an independent RFC 1035 reference decoder", design="3/C14",
+                text="Solver-decided for messages of bounded concrete layout (<= 4 records, names of <= 4 labels sharing suffixes at several depths or not - both equal and unequal labels explored -, rdata up to 16400 octets so that names are written on both sides of offset 16384, with and without EDNS, ids/TTLs/types/classes/12-bit rcode/flags symbolic): decode(encode(m)) = m for every header bit, the folded EDNS fields, the question and every record; every compression pointer found by an independent decoder targets an earlier offset below 16384 and every name expands to the original; no panic.",
+                note="NOT decided: arbitrary accepted byte strings (only messages produced by the encoder from the stated layouts), record data with embedded names (NS/MX/SOA/NAPTR rdata are not in the layouts yet), > 4 records, labels longer than 3 octets."),
+    "C05": dict(engine="kani+mirsym", technique=KB + " on parser skeletons (length/type fields enumerated over boundary values, contents symbolic); symbolic execution of rustc MIR into SMT (z3) of the DNS decoder, EDNS accessors and re-encoder on message skeletons", design="3/C05",
+                text="Solver-decided panic-freedom (Kani's overflow, bounds, unwrap, assert checks + unwinding assertions) of: the pktparser cursor (any 3 operations, buffers <= 8 octets), dhcppkt::parse at every field-boundary truncation and on fully symbolic 241-octet headers, EDNS COOKIE/EDE accessors for option lengths 0..40, LLDP TLV / management-address / packet decoders and ICMPv6 option decoders on skeleton families; the lifted rate-limiter bucket indexing. (mirsym) PktParser::get_dns + get_cookie/get_extended_dns_error + DNSPkt::serialise on 11 DNS message skeletons (plain, OPT, COOKIE of 0/7/8/24 octets, short EDE, compressed answer, self/forward/out-of-range pointers, lying counts) and on every truncation point of two of them, contents symbolic: Ok or Err, no panic in decode, option access or re-encode.",
+                note="NOT decided: arbitrary byte strings beyond the skeleton families and sizes stated per obligation; DHCP option decoding through parse_options (HashMap inserts: out of CBMC's reach); DNS messages outside the skeleton family (symbolic length fields); stack depth of recursive name compression; 'the service still answers the next request' (process liveness; socket loops such as lldp/mod.rs:24 buffer[14..]). Kani models the dev profile (overflow checks on)."),
     "C06": dict(engine="kani+mirsym", technique=KB + " (TTL kernels); symbolic execution of rustc MIR of the real cache functions into SMT (z3) with a bounded symbolic cache map; native replay", design="3/C06",
                 text="Solver-decided: (mirsym, from MIR) CacheHandler::get_entry + calculate_expiry + CacheValue::expiry + clone_with_ttl_decrement_out_reply + DNSPkt::clone_with_ttl_decrement/get_expiry on replies of bounded section shape with all TTLs, both cache keys and both instants symbolic: lifetime = min TTL; a hit only for a key equal in name, type, DO and CD and only while elapsed <= min TTL; every served TTL = original - whole seconds elapsed (rustc's overflow assertions kept as panic obligations); an unexpired identical entry is served. (Kani) get_expiry and clone_with_ttl_decrement kernels on the compiled code.",
                 note="Assumes: monotonic clock; HashMap::get = lookup by the crate's own derived CacheKey::eq over a bounded entry list (Hash/Eq consistency of the derive not re-checked); names abstracted to identities; tokio Instant/Duration arithmetic summarised. NOT decided: insertion/expiry sweep (HashMap::retain), the class-IN gate, key construction and lock interleavings in the async handle_query. Kani stub: derived <RData as Clone>::clone restricted to the variant the harness builds."),
@@ -60,9 +66,7 @@ PENDING = {}
 
 NOT_APPLICABLE = {
     "C18": "persistence across restart/upgrade/crash lives in SQLite's file format, journal and fsync behind FFI and the filesystem; neither Kani nor the MIR->SMT encoder executes it, and a model of SQLite durability would be an assumption rather than the code",
-    "C04": "serialise_with_size and the DNS parser need symbolic-length vector copies and a domain-compression tree of heap nodes: measured out of CBMC's reach (>15 min / out of memory) even on 35-octet skeletons; per-transport size limits live in tokio socket tasks. Not claimed in this round.",
     "C11": "policy evaluation runs over HashMap/HashSet-valued option tables (apply_policy, ResponseOptions): not executable by Kani; the MIR->SMT encoder has no map/trait-object (DhcpOptionTypeValue serialise) summaries yet. Not claimed in this round.",
-    "C14": "DNS decode/encode round trip: parser and compressor are out of CBMC's reach on symbolic input (symbolic-length copies, recursive heap tree; measured >15 min on 18 symbolic octets). Not claimed in this round.",
     "C17": "check under construction (Kani harnesses over build_announcement_pure + icmppkt::serialise); not registered until it is stable on the unchanged tree",
     "C19": "check under construction (Kani harnesses over the config leaf parsers); not registered until it is stable on the unchanged tree",
 }
